@@ -798,4 +798,17 @@ theorem pairs_state (h : KInv K s) (hr : RInv k kc c cc s.ring) (hnl : ∀ e ∈
 
 end
 
+/-! ### below call granularity -/
+
+/-- reading through the reference before anything else happens is the atomic `reap` of the ring model -/
+theorem split_reap_refines (K : Kern) (cd : Code) (s : KSt) :
+    (krun2 K cd ⟨s, none⟩ [.reapBegin, .reapRead]).1 = ⟨(kstep K cd s .reap).1, none⟩ := by
+  simp only [krun2, kstep2, kstep, step_reap]
+  cases h : getNextCqe cd s.ring with
+  | panic r1 => rfl
+  | ok r1 o =>
+    cases o with
+    | none => rfl
+    | some i => rfl
+
 end TinyVerif.Ring
